@@ -72,10 +72,16 @@ def _gen_scope_init(rng):
             init["config"].append([key, v])
     for k, v in rng.sample(FOREIGN, rng.randint(0, 5)):
         init["config"].append([k, v])
-    if rng.random() < 0.2:   # left over from an earlier enable
-        init["config"].append(["diff.jupyternotebook.command", "git-nbdiffdriver diff"])
+    # left over from an earlier enable - possibly edited since (full path, for IDEs / cron jobs whose PATH lacks the
+    # Python environment); @BIN is the directory of the entry points at execution time.  (Spellings the sandbox cannot
+    # execute - python -m, an env prefix - are left out: the routing probe could not see through them.)
     if rng.random() < 0.2:
-        init["config"].append(["merge.jupyternotebook.driver", "git-nbmergedriver merge %O %A %B %L %P"])
+        init["config"].append(["diff.jupyternotebook.command", rng.choice(
+            ["git-nbdiffdriver diff", "git-nbdiffdriver diff", "@BIN/git-nbdiffdriver diff", "@BIN/git-nbdiffdriver diff"])])
+    if rng.random() < 0.2:
+        init["config"].append(["merge.jupyternotebook.driver", rng.choice(
+            ["git-nbmergedriver merge %O %A %B %L %P", "git-nbmergedriver merge %O %A %B %L %P",
+             "@BIN/git-nbmergedriver merge %O %A %B %L %P", "@BIN/git-nbmergedriver merge %O %A %B %L %P"])])
         init["config"].append(["merge.jupyternotebook.name", "jupyter notebook merge driver"])
     if rng.random() < 0.15:
         init["config"].append(["difftool.nbdime.cmd", 'git-nbdifftool diff "$LOCAL" "$REMOTE" "$BASE"'])
@@ -263,7 +269,7 @@ class Runner:
         for scope, path in (("local", self.local_attrs), ("global", self.global_attrs)):
             init = tw[scope]
             for k, v in init["config"]:
-                w.git("config", "--" + scope, "--add", k, v)
+                w.git("config", "--" + scope, "--add", k, v.replace("@BIN", w.bin))
             if init["attrs"] is not None:
                 os.makedirs(os.path.dirname(path), exist_ok=True)
                 with open(path, "w") as f:
